@@ -4,6 +4,7 @@
 import Gmars.Model.Sim
 import Gmars.Proofs.WFExec
 import Gmars.Proofs.SpecLocal
+import Gmars.Proofs.ApiWF
 
 namespace Gmars.Props.C04
 open Gmars
@@ -58,6 +59,32 @@ theorem reference_fields_bounded (M R W : Nat) (c : Spec.Core) (pc : Nat)
     (h : ∀ a, (c.at a).a < M ∧ (c.at a).b < M) :
     ∀ a, ((Spec.step M R W c pc).core.at a).a < M ∧ ((Spec.step M R W c pc).core.at a).b < M :=
   Spec.step_fields M R W c pc h
+
+/-- `wf_reachable` — the invariant holds in EVERY state reached during a battle, for every accepted
+    configuration and every sequence of API operations (add any warrior whose instruction fields
+    are below the core size, spawn with any index and offset, RunCycle, Run, Reset): no operation
+    panics, and afterwards every instruction field and queued program counter is below the core
+    size, no warrior holds more tasks than the process limit (`PQ.Inv`), the completed-cycle count
+    does not exceed the cycle limit, the living count equals the number of warriors reporting
+    alive, and an alive warrior has tasks while a dead one has none (`Sim.WF`). -/
+theorem wf_reachable {c : Config} {s0 : Sim} {ops : List ApiOp} (hv : c.validate = true)
+    (hnew : Sim.new c = some s0)
+    (hops : ∀ op ∈ ops, match op with
+      | .add d => ∀ x ∈ d.code.toList, x.a < c.coreSize ∧ x.b < c.coreSize
+      | _ => True) :
+    ∃ s, s0.applyOps ops = .ok s ∧ s.WF ∧ s.CodeOK :=
+  Gmars.wf_reachable hv hnew hops
+
+/-- one cycle never panics and preserves the invariant -/
+theorem runCycle_preserves_invariant {s : Sim} (hwf : s.WF) (hc : s.CodeOK) :
+    ∃ s' n, s.runCycle = .ok (s', n) ∧ s'.WF ∧ s'.CodeOK :=
+  runCycle_wf hwf hc
+
+/-- the "zombie" branch of RunCycle (a warrior alive without tasks) is unreachable -/
+theorem zombie_unreachable {s : Sim} (hwf : s.WF) {i : Nat} (hi : i < s.warriors.size)
+    (halive : s.warriors[i].state = .alive) {q : PQ} (hq : s.warriors[i].pq = some q) :
+    ∃ pc q', q.pop = .ok (some pc, q') :=
+  Gmars.zombie_unreachable hwf hi halive hq
 
 -- non-vacuity: the KOTH '94 configuration is accepted, a two-cell core is refused
 example : (Sim.new (Config.quick .icws94 8000 8000 80000 100)).isSome = true := by decide
